@@ -259,6 +259,7 @@ func runC11(x *X) {
 			x.Nontrivial(st.key() + b.Key())
 		}
 	})
+	runC11Equal(x)
 }
 
 type c11State struct {
